@@ -33,6 +33,14 @@ def main():
            "def vocabulary : List (Bytes × Kind) := [" + ", ".join('(sb "%s", .%s)' % p for p in pairs) + "]", "",
            "/-- every definition of the table is a word of the vocabulary, in its role -/",
            "def SpeaksOnly (T : Table) : Bool := T.all (fun d => decide ((d.name, d.kind) ∈ vocabulary))", "",
+           "/-- the tags each command admits (commands not listed admit none) -/",
+           "def tagVocabulary : List (Bytes × List Bytes) := [" + ", ".join('(sb "%s", [%s])' % (c, ", ".join('sb "%s"' % t for t in ts)) for c, ts in sorted(v["tags"].items())) + "]", "",
+           "def tagsOf (d : CmdDef) : List Bytes :=",
+           "  d.args.flatMap (fun a => if decide (ArgType.tag ∈ a.types) then (a.values.getD []) ++ a.extValues.map (·.1) else [])", "",
+           "def frozenTags (n : Bytes) : List Bytes := ((tagVocabulary.find? (fun p => p.1 == n)).map (·.2)).getD []", "",
+           "/-- every definition admits exactly the tags the frozen vocabulary gives its command -/",
+           "def TagsExactly (T : Table) : Bool :=",
+           "  T.all (fun d => (tagsOf d).all (fun t => decide (t ∈ frozenTags d.name)) && (frozenTags d.name).all (fun t => decide (t ∈ tagsOf d)))", "",
            "/-- every word of the vocabulary has a definition -/",
            "def SpeaksAll (T : Table) : Bool := vocabulary.all (fun (n, k) => T.any (fun d => d.name == n && d.kind == k))", "",
            "end Spec"]
